@@ -22,7 +22,10 @@ PROP = {
              "goroutine, every ping answered, warm-up call, idle 9.2 s, call answered at 11.7 s with a 6 s client timeout: "
              "own answer, exactly one transport connection, pings seen, round trip measured), nonce-keeps-alive (only auth "
              "nonces every 2.5 s), silent-reconnects (no traffic: a second connection between 9.5 and 16 s; a reconnect "
-             "nobody requested is accepted by the model only after 10 ticks without any packet); go/ast check of the statement order in Request / "
+             "nobody requested is accepted by the model only after 10 ticks without any packet); outages (server resets the "
+             "connection and turns every new one away for 2 s / 11.5 s counted from the failed send that starts reconnect(), "
+             "then is back: re-established and IsOK within 8 s, later calls succeed, every attempt the server turned away is "
+             "a 'dialfail event of the compared history); go/ast check of the statement order in Request / "
              "registerCallback / processQueryAnswer. A class is (kind, connections, callers bucket, waves/drop or race shape "
              "or history shape, outcome)."),
     'explanation': ("coq/Properties/C12.v: for every trace of the labelled transition system of client.go + the status machine of "
@@ -31,7 +34,8 @@ PROP = {
                     "a waiting call always has its timeout enabled and no unreturned call is stuck; the registry holds in-flight "
                     "calls only and is empty when idle; at most one reconnect loop per connection; the silence rule "
                     "fires only after a full period without a packet of any kind (a connection fed at least once per period "
-                    "is never dropped by it); a new call over an established "
+                    "is never dropped by it); after any number of failed attempts and any waiting time the reconnect loop can "
+                    "still succeed (attempts are independent; a single deadline for the whole loop is refuted); a new call over an established "
                     "connection completes. The extracted model predicts or accepts every generated history of the real client."),
     'assumptions': ["query ids of concurrently in-flight calls are distinct (256-bit math/rand ids); visible premise of C12_no_foreign_answer",
                     "data races, goroutine leaks and wall-clock bounds (deadline, reconnect latency) are runtime facts not exhibited by the "
